@@ -201,7 +201,11 @@ theorem ewise2_soundAt {m : ℕ} (r : Rule2 ℝ) (a b : Vec m) (h : ∀ i, Sound
     ((ContinuousLinearMap.proj (R := ℝ) (φ := fun _ : Fin m => ℝ) i).comp (ContinuousLinearMap.fst ℝ _ _)).prod
       ((ContinuousLinearMap.proj (R := ℝ) (φ := fun _ : Fin m => ℝ) i).comp (ContinuousLinearMap.snd ℝ _ _))
   have hpick : HasFDerivAt (fun p : Vec m × Vec m => (p.1 i, p.2 i)) pick (a, b) := pick.hasFDerivAt
-  have hc := HasFDerivAt.comp (a, b) (g := fun q : ℝ × ℝ => r.f q.1 q.2) (h i) hpick
+  have hi : HasFDerivAt (fun q : ℝ × ℝ => r.f q.1 q.2)
+      (r.d1 (a i) (b i) • ContinuousLinearMap.fst ℝ ℝ ℝ + r.d2 (a i) (b i) • ContinuousLinearMap.snd ℝ ℝ ℝ)
+      ((fun p : Vec m × Vec m => (p.1 i, p.2 i)) (a, b)) := h i
+  have hc : HasFDerivAt (fun p : Vec m × Vec m => r.f (p.1 i) (p.2 i)) _ (a, b) :=
+    HasFDerivAt.comp (a, b) (g := fun q : ℝ × ℝ => r.f q.1 q.2) hi hpick
   have e : (r.d1 (a i) (b i) • ContinuousLinearMap.fst ℝ ℝ ℝ + r.d2 (a i) (b i) • ContinuousLinearMap.snd ℝ ℝ ℝ).comp pick
       = (ContinuousLinearMap.proj (R := ℝ) (φ := fun _ : Fin m => ℝ) i).comp
           ((mcl ((ewise2 (m := m) r).d₁ a b)).comp (ContinuousLinearMap.fst ℝ (Vec m) (Vec m))
@@ -219,7 +223,8 @@ theorem ewise1_soundAt {m : ℕ} (r : Rule1 ℝ) (a : Vec m) (h : ∀ i, Sound1 
   intro i
   have hproj : HasFDerivAt (fun v : Vec m => v i)
       (ContinuousLinearMap.proj (R := ℝ) (φ := fun _ : Fin m => ℝ) i) a := hasFDerivAt_apply i a
-  have hc := HasDerivAt.comp_hasFDerivAt a (h i) hproj
+  have hi : HasDerivAt r.f (r.d (a i)) ((fun v : Vec m => v i) a) := h i
+  have hc : HasFDerivAt (fun v : Vec m => r.f (v i)) _ a := HasDerivAt.comp_hasFDerivAt a hi hproj
   have e : r.d (a i) • (ContinuousLinearMap.proj (R := ℝ) (φ := fun _ : Fin m => ℝ) i)
       = (ContinuousLinearMap.proj (R := ℝ) (φ := fun _ : Fin m => ℝ) i).comp (mcl ((ewise1 (m := m) r).df a)) := by
     ext v
@@ -237,31 +242,32 @@ theorem linRule_soundAt {m k : ℕ} (M : Mat k m) (a : Vec m) : (linRule M).Soun
 
 theorem add_sound2 (a b : ℝ) : Sound2 addRule a b := by
   unfold Sound2
-  have := (hasFDerivAt_fst (𝕜 := ℝ) (p := (a, b))).add (hasFDerivAt_snd (𝕜 := ℝ) (p := (a, b)))
-  simpa [addRule] using this
+  have h := (hasFDerivAt_fst (𝕜 := ℝ) (E := ℝ) (F := ℝ) (p := (a, b))).add
+    (hasFDerivAt_snd (𝕜 := ℝ) (E := ℝ) (F := ℝ) (p := (a, b)))
+  exact h.congr_fderiv (by ext <;> simp [addRule])
 
 theorem sub_sound2 (a b : ℝ) : Sound2 subRule a b := by
   unfold Sound2
-  have := (hasFDerivAt_fst (𝕜 := ℝ) (p := (a, b))).sub (hasFDerivAt_snd (𝕜 := ℝ) (p := (a, b)))
-  simpa [subRule, sub_eq_add_neg] using this
+  have h := (hasFDerivAt_fst (𝕜 := ℝ) (E := ℝ) (F := ℝ) (p := (a, b))).sub
+    (hasFDerivAt_snd (𝕜 := ℝ) (E := ℝ) (F := ℝ) (p := (a, b)))
+  exact h.congr_fderiv (by ext <;> simp [subRule])
 
 theorem mul_sound2 (a b : ℝ) : Sound2 mulRule a b := by
   unfold Sound2
-  have := (hasFDerivAt_fst (𝕜 := ℝ) (p := (a, b))).mul (hasFDerivAt_snd (𝕜 := ℝ) (p := (a, b)))
-  simp only [mulRule]
-  convert this using 1
-  ext <;> simp [add_comm]
+  have h := (hasFDerivAt_fst (𝕜 := ℝ) (E := ℝ) (F := ℝ) (p := (a, b))).mul
+    (hasFDerivAt_snd (𝕜 := ℝ) (E := ℝ) (F := ℝ) (p := (a, b)))
+  exact h.congr_fderiv (by ext <;> simp [mulRule])
 
 theorem div_sound2 (a b : ℝ) (hb : b ≠ 0) : Sound2 divRule a b := by
   unfold Sound2
+  have hb' : ((a, b) : ℝ × ℝ).2 ≠ 0 := hb
   have hinv : HasFDerivAt (fun p : ℝ × ℝ => p.2⁻¹) _ (a, b) :=
-    (hasFDerivAt_inv (𝕜 := ℝ) hb).comp (a, b) (hasFDerivAt_snd (𝕜 := ℝ) (p := (a, b)))
-  have := (hasFDerivAt_fst (𝕜 := ℝ) (p := (a, b))).mul hinv
-  simp only [divRule]
-  convert this using 1
+    (hasFDerivAt_inv (𝕜 := ℝ) hb').comp (a, b) (hasFDerivAt_snd (𝕜 := ℝ) (E := ℝ) (F := ℝ) (p := (a, b)))
+  have h := (hasFDerivAt_fst (𝕜 := ℝ) (E := ℝ) (F := ℝ) (p := (a, b))).mul hinv
+  refine h.congr_fderiv ?_
   ext
-  · simp
-  · simp; ring
+  · simp [divRule]
+  · simp [divRule, pow_two]
 
 theorem max_sound2 (a b : ℝ) (hab : a ≠ b) : Sound2 maxRule a b := by
   unfold Sound2
@@ -270,14 +276,14 @@ theorem max_sound2 (a b : ℝ) (hab : a ≠ b) : Sound2 maxRule a b := by
       have ho : IsOpen {p : ℝ × ℝ | p.1 < p.2} := isOpen_lt continuous_fst continuous_snd
       filter_upwards [ho.mem_nhds (show (a, b) ∈ {p : ℝ × ℝ | p.1 < p.2} from h)] with p hp
       simp only [maxRule]; rw [if_pos hp]
-    have := (hasFDerivAt_snd (𝕜 := ℝ) (p := (a, b)) (E := ℝ)).congr_of_eventuallyEq hev
-    simpa [maxRule, h] using this
+    have h' := (hasFDerivAt_snd (𝕜 := ℝ) (E := ℝ) (F := ℝ) (p := (a, b))).congr_of_eventuallyEq hev
+    exact h'.congr_fderiv (by simp [maxRule, h])
   · have hev : (fun p : ℝ × ℝ => (maxRule (α := ℝ)).f p.1 p.2) =ᶠ[nhds (a, b)] fun p => p.1 := by
       have ho : IsOpen {p : ℝ × ℝ | p.2 < p.1} := isOpen_lt continuous_snd continuous_fst
       filter_upwards [ho.mem_nhds (show (a, b) ∈ {p : ℝ × ℝ | p.2 < p.1} from h)] with p hp
       simp only [maxRule]; rw [if_neg (not_lt.mpr (le_of_lt hp))]
-    have := (hasFDerivAt_fst (𝕜 := ℝ) (p := (a, b)) (F := ℝ)).congr_of_eventuallyEq hev
-    simpa [maxRule, not_lt.mpr (le_of_lt h)] using this
+    have h' := (hasFDerivAt_fst (𝕜 := ℝ) (E := ℝ) (F := ℝ) (p := (a, b))).congr_of_eventuallyEq hev
+    exact h'.congr_fderiv (by simp [maxRule, not_lt.mpr (le_of_lt h)])
 
 theorem npow_eq_pow (x : ℝ) (k : ℕ) : npow x k = x ^ k := by
   induction k with
@@ -288,15 +294,10 @@ theorem ipow_eq_zpow (x : ℝ) (c : ℤ) : ipow x c = x ^ c := by
   unfold ipow
   split
   · rename_i h
-    rw [npow_eq_pow]
-    conv_rhs => rw [← Int.toNat_of_nonneg h]
-    simp
+    rw [npow_eq_pow, ← zpow_natCast, Int.toNat_of_nonneg h]
   · rename_i h
-    rw [npow_eq_pow]
     have h' : 0 ≤ -c := by omega
-    have : c = -((-c).toNat : ℤ) := by rw [Int.toNat_of_nonneg h']; ring
-    conv_rhs => rw [this]
-    simp [zpow_neg]
+    rw [npow_eq_pow, ← zpow_natCast, Int.toNat_of_nonneg h', inv_zpow', neg_neg]
 
 theorem powInt_sound1 (c : ℤ) (x : ℝ) (hx : x ≠ 0 ∨ 0 ≤ c) : Sound1 (powIntRule c (c : ℝ)) x := by
   unfold Sound1
@@ -332,10 +333,10 @@ theorem tanh_hasDerivAt (x : ℝ) : HasDerivAt Real.tanh ((Real.cosh x ^ 2)⁻¹
   have hf : Real.tanh = fun y => Real.sinh y / Real.cosh y := by
     funext y; exact Real.tanh_eq_sinh_div_cosh y
   rw [hf]
-  convert h using 1
-  have := Real.cosh_sq x
-  field_simp
-  nlinarith [Real.cosh_sq x]
+  refine h.congr_deriv ?_
+  have h1 : Real.cosh x * Real.cosh x - Real.sinh x * Real.sinh x = 1 := by
+    nlinarith [Real.cosh_sq x]
+  rw [h1, one_div]
 
 theorem char_hasDerivAt (tol x : ℝ) (h : |x| ≠ tol) :
     HasDerivAt (fun y : ℝ => if |y| ≤ tol then (1 : ℝ) else 0) 0 x := by
@@ -356,12 +357,88 @@ theorem heaviside_hasDerivAt (z x : ℝ) (h : x ≠ 0) :
   rcases lt_or_gt_of_ne h with hlt | hgt
   · have hev : (fun y : ℝ => if y < 0 then (0 : ℝ) else if y = 0 then z else 1) =ᶠ[nhds x] fun _ => 0 := by
       filter_upwards [(isOpen_Iio (a := (0 : ℝ))).mem_nhds (show x ∈ Set.Iio (0 : ℝ) from hlt)] with y hy
-      rw [if_pos hy]
+      have hy' : y < 0 := hy
+      rw [if_pos hy']
     exact (hasDerivAt_const x (0 : ℝ)).congr_of_eventuallyEq hev
   · have hev : (fun y : ℝ => if y < 0 then (0 : ℝ) else if y = 0 then z else 1) =ᶠ[nhds x] fun _ => 1 := by
       filter_upwards [(isOpen_Ioi (a := (0 : ℝ))).mem_nhds (show x ∈ Set.Ioi (0 : ℝ) from hgt)] with y hy
       have hy' : (0 : ℝ) < y := hy
       rw [if_neg (not_lt.mpr hy'.le), if_neg hy'.ne']
     exact (hasDerivAt_const x (1 : ℝ)).congr_of_eventuallyEq hev
+
+/-! ### `l2_norm` -/
+
+/-- `functions.l2_norm(dim, ·)`: cell `c` has the components `g c d`, `d < dim` -/
+noncomputable def normRule {m k dim : ℕ} (g : Fin k → Fin dim → Fin m) : URule m k where
+  f v := fun c => Real.sqrt (∑ d, v (g c d) ^ 2)
+  df v := Matrix.of fun c j => ∑ d, if g c d = j then v (g c d) / Real.sqrt (∑ d', v (g c d') ^ 2) else 0
+
+theorem normRule_soundAt {m k dim : ℕ} (g : Fin k → Fin dim → Fin m) (v : Vec m)
+    (hne : ∀ c, ∑ d, v (g c d) ^ 2 ≠ 0) : (normRule g).SoundAt v := by
+  unfold URule.SoundAt
+  apply hasFDerivAt_pi''
+  intro c
+  have hsq : ∀ d ∈ (Finset.univ : Finset (Fin dim)),
+      HasFDerivAt (fun w : Vec m => w (g c d) ^ 2)
+        ((2 • v (g c d) ^ (2 - 1)) • ContinuousLinearMap.proj (R := ℝ) (φ := fun _ : Fin m => ℝ) (g c d)) v :=
+    fun d _ => (hasFDerivAt_apply (𝕜 := ℝ) (g c d) v).pow 2
+  have hsum := HasFDerivAt.fun_sum hsq
+  have hsqrt := hsum.sqrt (hne c)
+  refine hsqrt.congr_fderiv ?_
+  ext w
+  simp only [normRule, _root_.smul_apply, _root_.sum_apply, ContinuousLinearMap.comp_apply,
+    ContinuousLinearMap.proj_apply, mcl_apply, Matrix.mulVec, dotProduct, smul_eq_mul, Matrix.of_apply]
+  simp only [Finset.sum_mul, ite_mul, zero_mul]
+  rw [Finset.sum_comm]
+  simp only [Finset.sum_ite_eq, Finset.mem_univ, if_true]
+  rw [Finset.mul_sum]
+  apply Finset.sum_congr rfl
+  intro d _
+  have hs : Real.sqrt (∑ d', v (g c d') ^ 2) ≠ 0 := by
+    intro h0
+    rw [Real.sqrt_eq_zero'] at h0
+    exact hne c (le_antisymm h0 (Finset.sum_nonneg fun d' _ => sq_nonneg _))
+  field_simp
+  ring
+
+/-! ## stacking the equations (`EquationSystem.assemble`) -/
+
+/-- row index of the assembled system: equation `e`, local row `i` (equations in insertion order) -/
+abbrev Row {E : ℕ} (k : Fin E → ℕ) := Σ e : Fin E, Fin (k e)
+
+/-- `A` of `A, b = assemble(state=x)`: `sps.vstack` of the equations' forward-mode Jacobians -/
+def assembleJac {n E : ℕ} {k : Fin E → ℕ} (eqs : (e : Fin E) → Tree n (k e)) (x : Vec n) :
+    Matrix (Row k) (Fin n) ℝ := Matrix.of fun r j => (eqs r.1).jac x r.2 j
+
+/-- `b` of `assemble(state=x)` (also what `evaluate_jacobian=False` returns): the concatenated values,
+    scaled with -1 -/
+def assembleRhs {n E : ℕ} {k : Fin E → ℕ} (eqs : (e : Fin E) → Tree n (k e)) (x : Vec n) :
+    Row k → ℝ := fun r => -((eqs r.1).val x r.2)
+
+/-- the model residual: the concatenated equation values (`-b`) -/
+def residual {n E : ℕ} {k : Fin E → ℕ} (eqs : (e : Fin E) → Tree n (k e)) (x : Vec n) :
+    Row k → ℝ := fun r => -(assembleRhs eqs x r)
+
+/-- a matrix with an arbitrary finite row index as a continuous linear map -/
+noncomputable def mclRows {ι : Type} [Fintype ι] {n : ℕ} (A : Matrix ι (Fin n) ℝ) : Vec n →L[ℝ] (ι → ℝ) :=
+  LinearMap.toContinuousLinearMap (Matrix.toLin' A)
+
+@[simp] theorem mclRows_apply {ι : Type} [Fintype ι] {n : ℕ} (A : Matrix ι (Fin n) ℝ) (v : Vec n) :
+    mclRows A v = A.mulVec v := by
+  simp [mclRows]
+
+theorem residual_hasFDerivAt {n E : ℕ} {k : Fin E → ℕ} (eqs : (e : Fin E) → Tree n (k e)) (x : Vec n)
+    (h : ∀ e, (eqs e).Smooth x) :
+    HasFDerivAt (residual eqs) (mclRows (assembleJac eqs x)) x := by
+  apply hasFDerivAt_pi''
+  intro r
+  have he := tree_hasFDerivAt (eqs r.1) x (h r.1)
+  have hi := (hasFDerivAt_pi'.mp he) r.2
+  have hf : (fun y => residual eqs y r) = fun y => (eqs r.1).val y r.2 := by
+    funext y; simp [residual, assembleRhs]
+  rw [hf]
+  refine hi.congr_fderiv ?_
+  ext v
+  simp [assembleJac, Matrix.mulVec, dotProduct]
 
 end PorepyVerif.C03
